@@ -42,6 +42,11 @@ fn explore_history(r: &Run, id: &str) {
     };
     r.rule("call histories: every ordered pair of ops (the property's oracle on a few plain inputs + shared context calls that fail half-way, use another format, touch look-alike values) on a brand-new thread, compared with the op evaluated with no earlier call");
     guarded(r, || explore_with(r, id, &ops, 2, mode, base, &[]));
+    if r.tier == Tier::Thorough {
+        // three calls in a row, over a thinned alphabet (every 5th context op, every 3rd property op)
+        let thin: Vec<crate::history::Op> = ops.iter().filter(|o| o.is_context).step_by(5).chain(ops.iter().filter(|o| !o.is_context).step_by(3)).cloned().collect();
+        guarded(r, || explore_with(r, id, &thin, 3, mode, base, &[]));
+    }
     r.count("history_wall_ms", t0.elapsed().as_millis() as u64);
 }
 
@@ -84,6 +89,10 @@ fn run_check(id: &str, tier: Tier) -> Option<Run> {
 
 /// the call-history alphabet (E5) of a property; built the same way in every process
 pub fn history_ops(id: &str) -> Vec<crate::history::Op> {
+    crate::history::numbered(history_ops_unnumbered(id))
+}
+
+fn history_ops_unnumbered(id: &str) -> Vec<crate::history::Op> {
     match id {
         "C01" => hist::c01_ops(),
         "C02" => hist::c02_ops(),
